@@ -239,6 +239,9 @@ def run(prop, tier, cases, run_case, rule, owner, replay=None, nontrivial=None, 
                 die("%s: malformed event (%s) %s" % (prop, detail, json.dumps(family.clean_json(ev))[:500]))
             if (nontrivial(ev, kind, detail) if nontrivial else kind == "ok"):
                 nontriv.add(digest([family.clean_json({k: v for k, v in ev.items() if k not in ("hints",)}), l]))
+            if kind == "violation" and detail in ("exception:ValueError", "exception:IncompatibleArgsError") and prop == "C14":
+                counts["documented-refusal"] = counts.get("documented-refusal", 0) + 1
+                continue
             if kind == "violation":
                 who = "C14" if detail.startswith("exception:") else owner(ev)
                 if who != prop:
